@@ -84,4 +84,10 @@ def Group.chainName (h3 : Bytes → Bytes) (g : Group) : Bytes :=
   (if g.outbound then Gen.pfx_PolicyGroupOutboundPrefix else Gen.pfx_PolicyGroupInboundPrefix) ++
     g.uniqueID h3
 
+
+/-- `IPVersionConfig.NameForTempIPSet(n)` = `fmt.Sprint(tempSetNamePrefix, n)` with
+`tempSetNamePrefix = namePrefix ++ "4"|"6" ++ tempIpsetToken`. -/
+def nameForTempIPSet (namePrefix : Bytes) (v6 : Bool) (tempToken : Bytes) (n : Nat) : Bytes :=
+  namePrefix ++ [if v6 then 54 else 52] ++ tempToken ++ natDigits n
+
 end CalicoVerif.C37
